@@ -1,6 +1,7 @@
 """Generator of *core* programs (the sub-language modelled by lean/HidVerif/Compiler/Core.lean):
 one @is_you(), int locals, + - * / %, unary + -, comparisons, and/or/not, declarations, assignments,
-op-assignments, write(int), writeln, character output, blocks, if/else, while, for, return."""
+op-assignments, write(int), writeln, character output, blocks, if/else, while, for, break, continue, return,
+user functions, try/undo with defeat calls, try/stop with !is_defeat()."""
 import random
 
 
@@ -120,20 +121,24 @@ class G:
             if k < 0.8: return ['%swriteln(%s);' % (ind, ex)]
             if k < 0.9: return ['%swriteln();' % ind]
             return ['%swrite(\'%s\');' % (ind, self.r.choice(['a', 'Z', '.', '\\n', '\\x00', '\\xff', '\\\\', "\\'"]))]
-        if self.in_try and self.r.random() < 0.18:
+        if self.in_try and self.r.random() < (0.3 if self.in_try == 'stop' else 0.18):
             k = self.r.random()
-            if k < 0.15: return ['%s!is_defeat();' % ind]
+            if k < 0.15 or self.in_try == 'stop': return ['%s!is_defeat();' % ind]
             conds = [self.cmp(self.r.randint(0, 1)) for _ in range(self.r.randint(1, 3))]
             conds = [c for c in conds if c not in ('true', 'false')] or [self.r.choice(['true', 'false'])]
             return ['%s!truth_is_defeat(%s);' % (ind, ' or '.join(conds))]
         if d > 0 and not self.in_try and not self.in_handler and self.r.random() < 0.12:
-            self.in_try = True
+            kind = 'stop' if self.r.random() < 0.5 else 'undo'
+            self.in_try = kind
+            saved_loops = self.loops
+            if kind == 'stop': self.loops = []     # no break/continue out of a try/stop body
             body = self.block(d - 1, ind=ind + '    ')
+            self.loops = saved_loops
             self.in_try = False
             self.in_handler = True
             handler = self.block(min(d - 1, 1), ind=ind + '    ')
             self.in_handler = False
-            return ['%stry {' % ind] + body + ['%s} undo {' % ind] + handler + ['%s}' % ind]
+            return ['%stry {' % ind] + body + ['%s} %s {' % (ind, kind)] + handler + ['%s}' % ind]
         if d <= 0: return ['%swrite(\'.\');' % ind]
         if r < 0.72:
             c = self.b(self.r.randint(0, 2))
@@ -163,7 +168,7 @@ class G:
             return ['%sint %s = %d;' % (ind, i, n), '%swhile (%s > 0) {' % (ind, i)] + body + ['%s    %s = %s - 1;' % (ind, i, i), '%s}' % ind]
         if r < 0.95:
             return ['%s{' % ind] + self.block(d - 1, ind=ind + '    ') + ['%s}' % ind]
-        if self.r.random() < 0.5:
+        if self.r.random() < 0.5 and self.in_try != 'stop':
             return ['%sif (%s) {' % (ind, self.cmp(1)), '%s    return%s;' % (ind, (' ' + self.e(1)) if getattr(self, 'ret_int', False) else ''), '%s}' % ind]
         return ['%swrite(\'!\');' % ind]
 
